@@ -48,7 +48,15 @@ func (sig *Signature) Deserialize(b []byte) error {
 	if len(b) == 0 {
 		return fmt.Errorf("signature Deserialized failed.")
 	}
-	sig.value.Unmarshal(b)
+	rest, err := sig.value.Unmarshal(b)
+	if err == nil && len(rest) != 0 {
+		err = fmt.Errorf("signature Deserialized failed: %d trailing bytes", len(rest))
+	}
+	if err != nil {
+		// a rejected encoding leaves the nil signature, which verifies nothing
+		sig.value = bn_curve.G1{}
+		return err
+	}
 	return nil
 }
 
